@@ -1,7 +1,8 @@
 import KafVerif.Model.SqlFilter
 import KafVerif.Prelude.Driver
 /-! Line-protocol driver for the SELECT model (C36); same lines as harness/C36/.../verif_c36.
-`select` prints the model's rows; `direct` prints the specification's rows for the same line. -/
+`select` prints the model's answer (`err` or rows) under the line's fault items, through the modelled result
+cache; `direct` prints the specification's rows for the same line (faults and cache play no role there). -/
 open KafVerif KafVerif.SqlFilter
 
 def optI (s : String) : Option (Option Int) := if s = "-" then some none else s.toInt?.map some
@@ -47,6 +48,23 @@ structure DS where
   segs : List SegRef := []
   objs : List Obj := []
   bases : List Int := []     -- base offset of each listed segment (for printing)
+  cache : List (String × List Rec) := []   -- result cache of the world's Server (dropped when the world changes)
+
+/-- `fault=<-|item.item…>`: `l` listing error; `d<i>` / `c<i>` Decode error / context cancellation at listing position i -/
+def parseFaults (spec : String) : Option (Bool × List Nat) :=
+  if spec = "-" then some (false, []) else
+  (spec.splitOn ".").foldl (fun acc it =>
+    match acc with
+    | none => none
+    | some (lf, ds) =>
+      if it = "l" then some (true, ds)
+      else if it.startsWith "d" || it.startsWith "c" then
+        match (it.drop 1).toString.toNat? with
+        | some i => some (lf, i :: ds)
+        | none => none
+      else none) (some (false, []))
+
+def dummyQuery : Query := ⟨0, none, none, none, none, none, 1000, 0, none⟩
 
 def parsePairs (s : String) : List (Int × Int) :=
   if s = "-" then [] else
@@ -78,20 +96,38 @@ def stepLine' (segs : List SegRef) (ws : List String) : List SegRef × String :=
 def stepLine (d : DS) (ws : List String) : DS × String :=
   match ws with
   | ["reset"] => ({}, "reset")
+  | ["s3fault", _] => (d, "s3fault")
+  | "select" :: _ =>
+    match mkQuery ws, parseFaults (kvGet ws "fault") with
+    | some _, some (lf, ds) =>
+      -- the query text (the cache key) is the line without its fault item; `cacheKey` is ok iff both time
+      -- bounds are given and there is no TAIL clause
+      let key := joinWith " " (ws.take 10)
+      let cacheable := fun (k : String) =>
+        let kw := words k
+        kvGet kw "tail" = "-" && kvGet kw "tmin" ≠ "-" && kvGet kw "tmax" ≠ "-"
+      let qOf := fun (k : String) => (mkQuery (words k)).getD dummyQuery
+      let (c, out) := cachedSelect d.segs qOf cacheable d.cache key lf (fun i => ds.contains i)
+      ({ d with cache := c }, match out with | some rows => showRows rows | none => "err")
+    | _, _ => (d, "bad-op")
   | ["obj", topic, part, base, flags, lm, recs] =>
     match topic.toNat?, part.toInt?, base.toInt?, optI lm with
     | some t, some p, some b, some lm =>
       let complete := flags.contains 'k' && flags.contains 'i' && flags.contains 'm'
       -- an object without an explicit time is listed with the endpoint's default (2024-01-01)
       let o : Obj := ⟨t, p, b, complete, parsePairs recs, some (lm.getD 1704067200000)⟩
-      if flags.contains 'k' || flags.contains 'i' then ({ d with objs := d.objs ++ [o] }, "obj") else (d, "obj")
+      if flags.contains 'k' || flags.contains 'i' then ({ d with objs := d.objs ++ [o], cache := [] }, "obj")
+      else ({ d with cache := [] }, "obj")
     | _, _, _, _ => (d, "bad-op")
   | ["list", ti, _, _] =>
     let sorted := sortObjs (d.objs.filter (·.complete))
     let refs := listCompleted d.objs (ti = "1")
     let parts := (refs.zip sorted).map fun (r, o) =>
       s!"{r.topic}/{r.partition}/{o.base}/{showOpt r.minOffset}/{showOpt r.maxOffset}/{showOpt r.minTs}/{showOpt r.maxTs}/{showOpt r.lastModified}"
-    ({ d with segs := refs }, if parts.isEmpty then "list -" else "list " ++ joinWith ";" parts)
+    ({ d with segs := refs, cache := [] }, if parts.isEmpty then "list -" else "list " ++ joinWith ";" parts)
+  | "seg" :: _ =>
+    let (segs, out) := stepLine' d.segs ws
+    ({ d with segs := segs, cache := [] }, out)
   | _ =>
     let (segs, out) := stepLine' d.segs ws
     ({ d with segs := segs }, out)
